@@ -18,7 +18,7 @@ RULE = ("the C10 histories with references and with read operations mixed in: Un
         "values that parse into objects and lists and references into them; every read (getters, generic and typed Unpack, Has, "
         "CountField, Child+Unpack, FlattenedKeys, CompareConfigs) is first performed alone, then by 4-8 goroutines at once, one of "
         "which also uses the config as a merge source; the worker is built with -race (GORACE halt_on_error). Oracle: no race report, "
-        "every concurrent result equals the solo result, fingerprint unchanged. Non-trivial: a reference or an embedded config is "
+        "every concurrent result equals the solo result, fingerprint unchanged. Plus: 'captured' reads - Unpack two or three times into one target capturing a setting as *Config / Config under every policy tag. Non-trivial: a reference or an embedded config is "
         "read. Distinct by (operation multiset, history length).")
 
 
